@@ -250,6 +250,21 @@ pub fn profile(name: &str) -> Profile {
                 ..base
             }
         }
+        "trackedfaults" => {
+            // tracked storages under destructor faults in deletion paths (C12 across a caught panic)
+            let mut p = profile("tracked");
+            p.name = "trackedfaults";
+            p.faults = true;
+            p.fault_pct = 45;
+            p.wide_pct = 0;
+            p.par_pct = 0;
+            p.weights.push((RegisterReader, 10));
+            p.weights.push((DeleteNow, 8));
+            p.weights.push((DeleteBatch, 6));
+            p.weights.push((DeleteDeferred, 6));
+            p.weights.push((Maintain, 5));
+            p
+        }
         "restricted" => {
             let mut w = storage_weights();
             w.push((RestrictRead, 20));
